@@ -79,6 +79,9 @@ type c12Case struct {
 	// before-instantiation: its creation is short-cut and the after-initialization callbacks of the
 	// whole chain - the supplier included - run over it, in the contract's sequence
 	Supply int `json:"supplier_of_a_short_cut_component,omitempty"`
+	// HoldApp (runners): every runner wires the App itself; 1: their names sort before the App's own
+	// component name (created before it, the App nested inside the first runner's creation), 2: after
+	HoldApp int `json:"runners_hold_the_app,omitempty"`
 }
 
 func seqs(maxLen, nsym int, yield func([]int) bool) {
@@ -185,6 +188,9 @@ func c12RunSite(cs c12Case) (names []string, shared *scen.RT, o *scen.StartObs) 
 	var parts []*scen.Part
 	mk := func(i, s int) scen.Part {
 		names[i] = fmt.Sprintf("p%d", i)
+		if cs.HoldApp == 1 {
+			names[i] = fmt.Sprintf("a%d", i) // sorts before github.com/go-kid/ioc/app/App
+		}
 		user[names[i]] = true
 		return scen.Part{Nm: names[i], O: c12Order(s)}
 	}
@@ -202,6 +208,20 @@ func c12RunSite(cs c12Case) (names []string, shared *scen.RT, o *scen.StartObs) 
 			case cs.Late:
 				x := &scen.RunOI{Part: p}
 				comps, parts = append(comps, x), append(parts, &x.Part)
+				continue
+			}
+			if cs.HoldApp != 0 && s != c12Marker {
+				switch c12Class(s) {
+				case 0:
+					x := &scen.RunPA{RunP: scen.RunP{Part: p}}
+					comps, parts = append(comps, x), append(parts, &x.Part)
+				case 1:
+					x := &scen.RunOA{RunO: scen.RunO{Part: p}}
+					comps, parts = append(comps, x), append(parts, &x.Part)
+				default:
+					x := &scen.RunNA{RunN: scen.RunN{Part: p}}
+					comps, parts = append(comps, x), append(parts, &x.Part)
+				}
 				continue
 			}
 			switch c12Class(s) {
@@ -352,6 +372,18 @@ func c12Sites(c *core.Ctx) {
 						}
 					}
 				}
+				if site == "runners" && n <= 3 {
+					for hold := 1; hold <= 2; hold++ {
+						for _, k := range []int{0, factorialInt(n) - 1} {
+							if ok = yield(c12Case{Seq: s, Site: site, Perm: scen.NthPerm(n, k), HoldApp: hold}); !ok {
+								return false
+							}
+							if n == 1 {
+								break
+							}
+						}
+					}
+				}
 				if site == "processors" && n <= 3 {
 					// every mix of LazyInit and ordinary processors, identity and reversed iteration order
 					for m := 1; m < 1<<n; m++ {
@@ -396,7 +428,7 @@ func c12Sites(c *core.Ctx) {
 		for _, s := range cs.Seq {
 			symn = append(symn, c12Sym(s))
 		}
-		key := "C12/" + cs.Site + "/" + core.Hash(cs.Seq, cs.Perm, cs.Lazy, cs.Late, cs.Supply)
+		key := "C12/" + cs.Site + "/" + core.Hash(cs.Seq, cs.Perm, cs.Lazy, cs.Late, cs.Supply, cs.HoldApp)
 		if !o.OK() {
 			c.Outcome(cs.Site + "/start-failed")
 			c.Report(key, "start-failed", fmt.Sprintf("%s %v: start-up did not succeed: %v %s %s", cs.Site, symn, scen.FirstLine(o.Err), o.Panic, o.Abort), cs)
@@ -417,7 +449,7 @@ func c12Sites(c *core.Ctx) {
 				nm := strings.SplitN(strings.TrimPrefix(e, prefix), ":", 2)[0]
 				seen[nm]++
 				var i int
-				fmt.Sscanf(nm, "p%d", &i)
+				fmt.Sscanf(nm[1:], "%d", &i)
 				classes = append(classes, c12Class(cs.Seq[i]))
 				orders = append(orders, c12Order(cs.Seq[i]))
 			}
